@@ -1,4 +1,5 @@
 import RustCcModel.Proofs.CtlSimp
+import RustCcModel.Proofs.ActOnce
 /-! # C10 — cleaning actions run at most once, exactly once by the time the `Cleaner` is gone
 
 An action lives in exactly one slot of its map; both ways of running it (`Cleanable::clean`, the drop
@@ -28,5 +29,26 @@ theorem clean_after_drop_noop (c : Cfg) (w : World) (self wc : Option Id) (k : N
   simp only [execOp, hc, hk]
   have hd' : ({ w with ret := Ret.ok } : World).weakStrong (.to m) = 0 := hd
   simp [hd']
+
+/-! ## Every history of the running machine (`Proofs/ActOnce.lean`)
+
+`aEv log`: the identifiers of the cleaning actions run by the log. Identifiers are handed out by `register` from a counter
+(`nextAid`), stored actions have distinct identifiers (`AOk`), an action is taken out of its slot before it runs. -/
+
+/-- **Each registered cleaning action runs at most once** in the whole history — whether through `Cleanable::clean`, the drop
+of the `Cleaner` by reference counting, or the reclamation of a cycle owning it. -/
+theorem action_at_most_once (c : Cfg) (nH nW nK : Nat) (w : World) (log : List Event) (h : HistR c nH nW nK w log) (aid : Nat) :
+    (aEv log).count aid ≤ 1 :=
+  (histR_actOk c nH nW nK w log h aid).2.once
+
+/-- An action that ran is gone for good: no slot map holds it any more (a later `clean()` finds nothing to run, the
+`Cleaner`'s drop does not run it again) and its identifier is never handed out again. -/
+theorem action_ran_is_gone (c : Cfg) (nH nW nK : Nat) (w : World) (log : List Event) (h : HistR c nH nW nK w log) (aid : Nat)
+    (hr : aid ∈ aEv log) : aid < w.nextAid ∧ ∀ m i a, slotAt w m i = some a → a.aid ≠ aid :=
+  (histR_actOk c nH nW nK w log h aid).2.gone hr
+
+/-- Stored actions always have distinct identifiers, all already handed out. -/
+theorem stored_actions_distinct (c : Cfg) (nH nW nK : Nat) (w : World) (log : List Event) (h : HistR c nH nW nK w log) : AOk w :=
+  (histR_actOk c nH nW nK w log h 0).1
 
 end RustCc.C10
